@@ -89,6 +89,12 @@ def programs(tier):
                    ("ref-of-tuple", "Ref[(bool, bool)]"), ("array-of-tuple", "[(int32, string); 2]")):
         add("helper-types-of-definitions", "unused-struct:" + n, f"struct Unused {{ t: {fty}, k: int32 }}\n" + MAINH + "    let _ = string_println(\"hi\");\n" + MAINT, ["hi"])
         add("helper-types-of-definitions", "unused-enum:" + n, f"enum Unused {{ K({fty}), Z }}\n" + MAINH + "    let _ = string_println(\"hi\");\n" + MAINT, ["hi"])
+    # ---- (OPEN finding, not fixed) a closure parameter without annotation whose only use is an array builtin gets the builtin's
+    # wildcard-length array type, which nothing resolves to the length of the argument
+    add("unannotated-array-parameter", "local-closure", MAINH + "    let g = |p| array_get(p, 0);\n    let r = g([1, 2]);\n    let _ = string_println(int32_to_string(r));\n" + MAINT, ["1"])
+    add("unannotated-array-parameter", "closure-argument-of-generic", "fn apply[T, U](f: (T) -> U, v: T) -> U { f(v) }\n" + MAINH +
+        "    let r = apply(|p| array_get(p, 0), [1, 2]);\n    let _ = string_println(int32_to_string(r));\n" + MAINT, ["1"])
+    add("unannotated-array-parameter", "annotated:control", MAINH + "    let g = |p: [int32; 2]| array_get(p, 0);\n    let r = g([1, 2]);\n    let _ = string_println(int32_to_string(r));\n" + MAINT, ["1"])
     # ---- a type parameter applied to arguments is not a type: rejected with a diagnostic wherever it is written and however
     # the value is used (fix b540838: a method call on such a value panicked in the inherent-method lookup)
     uses = {"method-call": "x.foo()", "field-read": "x.v", "ufcs-call": "T::foo(x)", "passed-on": "g(x)", "returned": "x", "unused": "()"}
